@@ -330,16 +330,32 @@ def main(argv):
     seed = int(os.environ.get("VERIF_SEED", "0"))
     t0 = time.time()
     try:
-        legs = []
+        legs, broken = [], []
+
+        def guarded(th):
+            try:
+                return th()
+            except (Machinery, tlcrun.TLCError, subprocess.SubprocessError) as e:
+                return e
         with ThreadPoolExecutor(max_workers=6) as ex:          # legs run side by side; SEM bounds the worker processes
-            for r in ex.map(lambda th: th(), plan(prop, tier, seed)):
-                legs.extend(r if isinstance(r, list) else [r])
-        if not legs:
+            for r in ex.map(guarded, plan(prop, tier, seed)):
+                if isinstance(r, Exception):
+                    broken.append(r)
+                else:
+                    legs.extend(r if isinstance(r, list) else [r])
+        if not legs and not broken:
             raise Machinery(f"no legs defined for {prop}")
     except (Machinery, tlcrun.TLCError, subprocess.SubprocessError) as e:
         print(f"MACHINERY-ERROR property={prop}: {e}")
         return 2
-    return conclude(prop, tier, seed, legs, time.time() - t0)
+    for e in broken:
+        print(f"MACHINERY-ERROR property={prop}: {str(e)[:1500]}")
+    if not legs:
+        return 2
+    rc = conclude(prop, tier, seed, legs, time.time() - t0)
+    # a leg that could not run makes the run incomplete: violations found by the other legs are still reported (exit 1),
+    # but without them the outcome is a machinery failure, never a pass
+    return rc if rc == 1 or not broken else 2
 
 
 def conclude(prop, tier, seed, legs, wall):
